@@ -87,6 +87,13 @@ META.update({
    tech="deviation-bounded exhaustive enumeration of RNG scripts (environment answers) over a bounded-exhaustive parameter grid, with hang containment"),
 })
 
+META.update({
+ "C20": dict(engine="E1", cat="model_checking", ref="3 C20",
+   text="E1 as a product with a live C-API instance: BFS over the states of a Rust twin framework; for every explored edge (empty batch, every single event with own / foreign / usize::MAX ids, all ordered pairs, long batches) a fresh instance is started with maybenot_start, the history replayed through maybenot_on_events, and the actions written for the last batch compared field by field with the twin's (tag, machine, bypass, replace, timer, seconds/nanoseconds split), in a buffer of num_machines slots surrounded by canary slots; plus the exhaustive start-argument menu (machine strings x fractions x null out pointer) against the Rust API's own verdict, null-pointer cases on every entry point, and a leak check with a counting allocator.",
+   note="Machines with deterministic sampling and time-independent budgets (the API seeds its RNG from the OS and reads Instant::now() itself); callers honour the documented safety contract.",
+   tech="explicit-state BFS of a reference twin with every explored trace replayed against the real C API (conformance on every edge), canary-guarded buffers"),
+})
+
 def built_ids():
     # a check is registered once its module exists in the harness
     src = open(os.path.join(HERE, "harness", "src", "main.rs")).read()
@@ -118,6 +125,6 @@ man = dict(version=1, setup_cmd="./check build",
   engines=[dict(name=k, path=ENG[k][0], serves_properties=sorted(v), kind_free_text=ENG[k][1]) for k, v in sorted(engines.items())],
   checks=checks,
   notes="Exit codes: 0 held, 1 VIOLATION (replay file under replays/), 2 machinery failure. Known findings and repaired defects: known_findings.txt. Design: DESIGN.md.",
-  not_applicable=[dict(property_id=p["id"], reason="check under construction in this session (engine designed in DESIGN.md, not yet registered)") for p in props if p["id"] not in built])
+  not_applicable=[dict(property_id=p["id"], reason="check under construction (engine designed in DESIGN.md, not yet registered)") for p in props if p["id"] not in built])
 json.dump(man, open(os.path.join(HERE, "MANIFEST.json"), "w"), indent=1)
 print("MANIFEST.json:", len(checks), "checks,", len(man["not_applicable"]), "not applicable")
